@@ -397,3 +397,135 @@ Lemma C09_rename_bnode_class_refuted :
 Proof.
   split; [exact C09_sg1_is_renaming|]. repeat split; try (vm_compute; reflexivity). vm_compute. discriminate.
 Qed.
+
+(** ** (c'), complements to (c)
+
+    (i) under [valid_input] (the domain of C04, Props/C04.v) both runs
+    succeed: [C09_keys_permutation_invariant] with no hypothesis on either
+    outcome; (ii) ANY setting of remove_empty_shapes, for binary64, thresholds
+    <= 1, no class IRI starting with '%'/"@" ([class_iris_ok]) and fewer than
+    2^53 triples: there the shape-level cleaning removes nothing (C14's
+    no-empty-shape lemmas) and the profile-level cleaning is declarative
+    ([C09_raw_keys_iff_occ]: a class key is kept iff it is an original label
+    or the class has a positive count; a key passes iff some (type key,
+    cardinality) of its value class has a positive count that reaches the
+    threshold AND the type key is not a removed class key), hence invariant. *)
+From Shexer Require Import Proofs.Bin64Round Proofs.FreqLaws.
+
+Theorem C09_keys_permutation_invariant_valid : forall fa c (thr : F fa) (g g' : graph),
+  (r_cap c <= 0)%Z -> r_remove_empty c = false -> Permutation g g' -> valid_input c g = true ->
+  exists ns shapes shapes',
+    run_shapes fa c thr g = inl (ns, shapes) /\ run_shapes fa c thr g' = inl (ns, shapes') /\
+    (forall cls, In cls (map sh_class shapes) <-> In cls (map sh_class shapes')) /\
+    forall sh sh', In sh shapes -> In sh' shapes' -> sh_class sh = sh_class sh' ->
+      sh_name sh = sh_name sh' /\ sh_n sh = sh_n sh' /\
+      forall key, In key (map (skey (scfg_of c ns)) (sh_stmts sh)) <->
+                  In key (map (skey (scfg_of c ns)) (sh_stmts sh')).
+Proof. exact e2e_keys_perm_valid. Qed.
+Print Assumptions C09_keys_permutation_invariant_valid.
+
+Theorem C09_keys_permutation_invariant_total : forall fa c (thr : F fa) (g g' : graph) ns shapes,
+  (r_cap c <= 0)%Z -> r_remove_empty c = false -> Permutation g g' -> valid_input c g = true ->
+  run_shapes fa c thr g = inl (ns, shapes) ->
+  exists shapes',
+    run_shapes fa c thr g' = inl (ns, shapes') /\
+    (forall cls, In cls (map sh_class shapes) <-> In cls (map sh_class shapes')) /\
+    forall sh sh', In sh shapes -> In sh' shapes' -> sh_class sh = sh_class sh' ->
+      sh_name sh = sh_name sh' /\ sh_n sh = sh_n sh' /\
+      forall key, In key (map (skey (scfg_of c ns)) (sh_stmts sh)) <->
+                  In key (map (skey (scfg_of c ns)) (sh_stmts sh')).
+Proof. exact e2e_keys_perm_total. Qed.
+Print Assumptions C09_keys_permutation_invariant_total.
+
+(** C02 for the shapes before the shape-level cleaning ([run_raw],
+    Proofs/EndToEnd2.v), whatever remove_empty_shapes: soundness and
+    completeness *)
+Theorem C09_raw_keys_iff_occ : forall fa c (thr : F fa) g ns shapes,
+  run_raw fa c thr g = inl (ns, shapes) ->
+  exists I P C ID,
+    track (r_tau c) (mode_of c) (r_cap c) g = inl I /\
+    profile (pcfg_of c) I g = inl (P, C, ID) /\
+    map sh_class shapes = dkeys P /\
+    forall sh, In sh shapes ->
+      sh_name sh = shape_name (r_shapes_ns c) (sh_class sh) /\
+      sh_n sh = class_count I (sh_class sh) /\
+      forall inv p vc,
+        In (inv, p, vc) (map (skey (scfg_of c ns)) (sh_stmts sh)) <->
+        key_passes_occ_kept fa c thr I g
+          (fun k => In k (class_keys (targets_of (pcfg_of c)) I) -> In k (dkeys P)) (sh_class sh) inv p vc.
+Proof. exact run_raw_keys_iff_occ. Qed.
+Print Assumptions C09_raw_keys_iff_occ.
+
+(** which class keys the profile-level cleaning keeps *)
+Theorem C09_kept_class_keys : forall cfg (I : insts) G P C ID,
+  NoDup (dkeys I) -> profile cfg I G = inl (P, C, ID) ->
+  forall c, In c (dkeys P) <->
+            In c (class_keys (targets_of cfg) I) /\
+            (p_remove_empty cfg = false \/ In c (orig_labels cfg) \/
+             exists dir p k card, (dir = Inverse -> p_inverse cfg = true) /\
+                                  (0 < occ dir (p_tau cfg) I G c p k card)%N).
+Proof. intros cfg I G P C ID Hn HP. exact (proj1 (profile_kept_char cfg I G P C ID Hn HP)). Qed.
+Print Assumptions C09_kept_class_keys.
+
+(** raw shapes: invariant for any options and any threshold *)
+Theorem C09_raw_keys_permutation_invariant : forall fa c (thr : F fa) (g g' : graph) ns shapes ns' shapes',
+  (r_cap c <= 0)%Z -> Permutation g g' ->
+  run_raw fa c thr g = inl (ns, shapes) -> run_raw fa c thr g' = inl (ns', shapes') ->
+  ns' = ns /\
+  (forall cls, In cls (map sh_class shapes) <-> In cls (map sh_class shapes')) /\
+  forall sh sh', In sh shapes -> In sh' shapes' -> sh_class sh = sh_class sh' ->
+    sh_name sh = sh_name sh' /\ sh_n sh = sh_n sh' /\
+    forall key, In key (map (skey (scfg_of c ns)) (sh_stmts sh)) <->
+                In key (map (skey (scfg_of c ns)) (sh_stmts sh')).
+Proof. exact run_raw_keys_perm. Qed.
+Print Assumptions C09_raw_keys_permutation_invariant.
+
+(** (ii) final shapes, remove_empty_shapes on or off *)
+Theorem C09_keys_permutation_invariant_any : forall c thr (g g' : graph) ns shapes ns' shapes',
+  (r_cap c <= 0)%Z -> Permutation g g' ->
+  class_iris_ok c g = true -> wf_frac thr -> fle BAlg thr (fone BAlg) = true ->
+  (N.of_nat (List.length g) < 2 ^ 53)%N ->
+  run_shapes BAlg c thr g = inl (ns, shapes) -> run_shapes BAlg c thr g' = inl (ns', shapes') ->
+  ns' = ns /\
+  (forall cls, In cls (map sh_class shapes) <-> In cls (map sh_class shapes')) /\
+  forall sh sh', In sh shapes -> In sh' shapes' -> sh_class sh = sh_class sh' ->
+    sh_name sh = sh_name sh' /\ sh_n sh = sh_n sh' /\
+    forall key, In key (map (skey (scfg_of c ns)) (sh_stmts sh)) <->
+                In key (map (skey (scfg_of c ns)) (sh_stmts sh')).
+Proof. exact e2e_keys_perm_any. Qed.
+Print Assumptions C09_keys_permutation_invariant_any.
+
+(** ... and with no hypothesis on the outcomes *)
+Theorem C09_keys_permutation_invariant_valid_any : forall c thr (g g' : graph),
+  (r_cap c <= 0)%Z -> Permutation g g' ->
+  typing_okb (r_tau c) g && forallb (sentinel_free (r_tau c)) g && prefix_free c && class_iris_ok c g = true ->
+  wf_frac thr -> fle BAlg thr (fone BAlg) = true -> (N.of_nat (List.length g) < 2 ^ 53)%N ->
+  exists ns shapes shapes',
+    run_shapes BAlg c thr g = inl (ns, shapes) /\ run_shapes BAlg c thr g' = inl (ns, shapes') /\
+    (forall cls, In cls (map sh_class shapes) <-> In cls (map sh_class shapes')) /\
+    forall sh sh', In sh shapes -> In sh' shapes' -> sh_class sh = sh_class sh' ->
+      sh_name sh = sh_name sh' /\ sh_n sh = sh_n sh' /\
+      forall key, In key (map (skey (scfg_of c ns)) (sh_stmts sh)) <->
+                  In key (map (skey (scfg_of c ns)) (sh_stmts sh')).
+Proof. exact e2e_keys_perm_valid_any. Qed.
+Print Assumptions C09_keys_permutation_invariant_valid_any.
+
+(** non-vacuity: the default configuration (remove_empty_shapes ON) and the
+    two orders of the reference-tie graph satisfy every hypothesis *)
+Example C09_any_nonvacuous :
+  r_remove_empty base_rcfg = true /\ (r_cap base_rcfg <= 0)%Z /\
+  valid_input_le1 base_rcfg g_reftie_1 = true /\ valid_input (with_remove_empty false base_rcfg) g_reftie_1 = true /\
+  wf_frac thr0 /\ fle BAlg thr0 (fone BAlg) = true /\ (N.of_nat (List.length g_reftie_1) < 2 ^ 53)%N /\
+  keys_of_run BAlg base_rcfg thr0 g_reftie_1 =
+    Some [ (ex "C", 1%N, [(false, tau, VClass (ex "C")); (false, ex "p", VNonLit)]);
+           (ex "C1", 1%N, [(false, tau, VClass (ex "C1")); (false, tau, VClass (ex "C2"))]);
+           (ex "C2", 1%N, [(false, tau, VClass (ex "C1")); (false, tau, VClass (ex "C2"))]) ] /\
+  keys_of_run BAlg base_rcfg thr0 g_reftie_2 =
+    Some [ (ex "C", 1%N, [(false, tau, VClass (ex "C")); (false, ex "p", VNonLit)]);
+           (ex "C2", 1%N, [(false, tau, VClass (ex "C2")); (false, tau, VClass (ex "C1"))]);
+           (ex "C1", 1%N, [(false, tau, VClass (ex "C2")); (false, tau, VClass (ex "C1"))]) ].
+Proof.
+  split; [reflexivity|]. split; [intros H; discriminate H|]. split; [vm_compute; reflexivity|].
+  split; [vm_compute; reflexivity|]. split; [vm_compute; split; [discriminate | reflexivity]|].
+  split; [vm_compute; reflexivity|]. split; [vm_compute; reflexivity|]. split; vm_compute; reflexivity.
+Qed.
